@@ -25,7 +25,7 @@ structure Edit where
 
 def hsNames : List (String × Msg) :=
   [("hreq", .helloRequest), ("ch", .clientHello), ("sh", .serverHello), ("nst", .newSessionTicket),
-   ("cert", .certificate), ("skx", .serverKeyExchange), ("creq", .certificateRequest), ("shd", .serverHelloDone),
+   ("cert", .certificate), ("skx", .serverKeyExchange), ("skx0", .serverKeyExchange), ("creq", .certificateRequest), ("shd", .serverHelloDone),
    ("cv", .certificateVerify), ("ckx", .clientKeyExchange), ("fin", .finishedBad), ("status", .certificateStatus),
    ("npn", .nextProtocol), ("unk", .unknownType)]
 
@@ -72,6 +72,7 @@ structure Flags where
   resume : Bool := false
   tls : Bool := false
   gm : Bool := false
+  rsa : Bool := false   -- the TLS client offers an RSA key-transport suite only: no ServerKeyExchange
 
 def parseFlags (s : String) : Option Flags :=
   if s = "-" then some {} else
@@ -79,7 +80,9 @@ def parseFlags (s : String) : Option Flags :=
     if x = "cert" then some { f with cert := true } else if x = "ticket" then some { f with ticket := true }
     else if x = "resume" then some { f with resume := true } else if x = "tls" then some { f with tls := true }
     else if x = "gm" then some { f with gm := true }
+    else if x = "rsa" then some { f with rsa := true }
     else if x = "nist" then some f   -- the client offers P-256 only: no effect on the message automaton
+    else if x = "reneg" then some f  -- Config.Renegotiation set: concerns what follows the handshake, not the handshake
     else none) {}
 
 def isClient (role : String) : Bool := role = "gmclient" ∨ role = "tlsclient"
@@ -89,7 +92,7 @@ def cfgOf (role : String) (f : Flags) : Cfg :=
   let gm := role = "gmserver" ∨ role = "gmclient" ∨ (role = "autoserver" ∧ ¬ f.tls)
   if isClient role then
     { server := false, gm := gm, resume := f.resume, reqCert := false, peerCert := false,
-      ticket := f.ticket && !f.resume, ocsp := false, skx := true, npn := false }
+      ticket := f.ticket && !f.resume, ocsp := false, skx := !(f.rsa && role = "tlsclient"), npn := false }
   else
     { server := true, gm := gm, resume := f.resume, reqCert := f.cert, peerCert := f.cert,
       ticket := false, ocsp := false, skx := true, npn := false }
@@ -98,7 +101,8 @@ def cfgOf (role : String) (f : Flags) : Cfg :=
 def flightsOf (role : String) (f : Flags) : List (List Msg) :=
   if isClient role then
     if f.resume then [[.serverHello, .ccs, .finished]] else
-    [[.serverHello, .certificate, .serverKeyExchange] ++ (if f.cert then [.certificateRequest] else []) ++ [.serverHelloDone],
+    [[.serverHello, .certificate] ++ (if f.rsa && role = "tlsclient" then [] else [.serverKeyExchange]) ++
+       (if f.cert then [.certificateRequest] else []) ++ [.serverHelloDone],
      (if f.ticket then [.newSessionTicket] else []) ++ [.ccs, .finished]]
   else
     if f.resume then [[.clientHello], [.ccs, .finished]] else
@@ -380,5 +384,8 @@ def handshakeDispatch (toks : List String) : Option String :=
   | "hsout" :: rest => some (HS.hsoutOp rest)
   | "chmod" :: rest => some (HS.chmodOp rest)
   | "shmod" :: rest => some (HS.shmodOp rest)
+  -- a scripted TLS 1.2 server that holds the server's keys (harness/c15evil.go): the client completes with the honest
+  -- one and with no other (intrinsic oracle in the harness: ORACLE-FAIL:completed-on-misbehaviour)
+  | ["evilsrv", v, _, _] => some (if v = "honest" then "done" else "error")
   | _ => none
 end Driver
